@@ -23,6 +23,13 @@ func pick(t *rapid.T, label string, w ...int) int {
 
 var durations = []string{"5s", "10s", "15s", "30s", "1m", "2m"}
 
+// long scalars with blanks: a YAML emitter may fold them over several lines (column 80), which a hash computed
+// over marshaled text would see if two processes emitted differently
+const (
+	longRegex = "(kube state metrics|node exporter|blackbox exporter|alertmanager main|prometheus operator)-(.*)"
+	longValue = "rack 12 of the second hall of the data centre in the north, maintained by the platform team since 2019"
+)
+
 type secretGen struct{ n int }
 
 // next returns a distinctive secret; some need YAML quoting.
@@ -71,10 +78,10 @@ func genRelabels(t *rapid.T, label string, metric bool, max int) []Relabel {
 			if rapid.Bool().Draw(t, l+"-two") {
 				r.Source = append(r.Source, rapid.SampledFrom(src).Draw(t, l+"-s1"))
 			}
-			r.Regex = rapid.SampledFrom([]string{"", "(.*)", "([^:]+):.*", "a|b", "(.+);(.+)"}).Draw(t, l+"-re")
+			r.Regex = rapid.SampledFrom([]string{"", "(.*)", "([^:]+):.*", "a|b", "(.+);(.+)", longRegex}).Draw(t, l+"-re")
 			r.Target = rapid.SampledFrom([]string{"instance", "dc", "tmp_label", "__tmp_a"}).Draw(t, l+"-target")
 			if rapid.Bool().Draw(t, l+"-hasRep") {
-				r.Replacement = strp(rapid.SampledFrom([]string{"$1", "${1}:9100", "fixed", "a: b"}).Draw(t, l+"-rep"))
+				r.Replacement = strp(rapid.SampledFrom([]string{"$1", "${1}:9100", "fixed", "a: b", longValue + " $1"}).Draw(t, l+"-rep"))
 			}
 			if rapid.IntRange(0, 3).Draw(t, l+"-sepOn") == 0 {
 				r.Separator = rapid.SampledFrom([]string{";", "-", "@"}).Draw(t, l+"-sep")
@@ -82,7 +89,7 @@ func genRelabels(t *rapid.T, label string, metric bool, max int) []Relabel {
 		case 1:
 			r.Action = rapid.SampledFrom([]string{"keep", "drop"}).Draw(t, l+"-act")
 			r.Source = []string{rapid.SampledFrom(src).Draw(t, l+"-s0")}
-			r.Regex = rapid.SampledFrom([]string{"go_.*", "up|process_.+", "prod", "kube-system;.*", "(?i)debug.*"}).Draw(t, l+"-re")
+			r.Regex = rapid.SampledFrom([]string{"go_.*", "up|process_.+", "prod", "kube-system;.*", "(?i)debug.*", longRegex}).Draw(t, l+"-re")
 		case 2:
 			r.Action = "labelmap"
 			r.Regex = rapid.SampledFrom([]string{"__meta_kubernetes_pod_label_(.+)", "__meta_(.+)", "tmp_(.*)"}).Draw(t, l+"-re")
@@ -121,7 +128,7 @@ func genSD(t *rapid.T, label string) SD {
 		sd.Targets = append(sd.Targets, rapid.SampledFrom([]string{"10.0.0.1:9100", "10.0.0.2:9100", "node-a:9100", "localhost:8080"}).Draw(t, fmt.Sprintf("%s-t%d", label, i)))
 	}
 	if rapid.Bool().Draw(t, label+"-labels") {
-		sd.Labels = map[string]string{"zone": rapid.SampledFrom([]string{"a", "b: c", "#x"}).Draw(t, label+"-zone")}
+		sd.Labels = map[string]string{"zone": rapid.SampledFrom([]string{"a", "b: c", "#x", longValue}).Draw(t, label+"-zone")}
 	}
 	return sd
 }
@@ -174,7 +181,7 @@ func GenSpec(t *rapid.T) *Spec {
 		j.Scheme = rapid.SampledFrom([]string{"", "http", "https"}).Draw(t, l+"-scheme")
 		j.Path = rapid.SampledFrom([]string{"", "/metrics", "/probe", "/federate"}).Draw(t, l+"-path")
 		if rapid.IntRange(0, 2).Draw(t, l+"-paramsOn") == 0 {
-			j.Params = map[string][]string{rapid.SampledFrom([]string{"module", "match[]"}).Draw(t, l+"-pk"): {rapid.SampledFrom([]string{"http_2xx", "{job=\"x\"}", "a b"}).Draw(t, l+"-pv")}}
+			j.Params = map[string][]string{rapid.SampledFrom([]string{"module", "match[]"}).Draw(t, l+"-pk"): {rapid.SampledFrom([]string{"http_2xx", "{job=\"x\"}", "a b", longValue}).Draw(t, l+"-pv")}}
 		}
 		if rapid.IntRange(0, 2).Draw(t, l+"-intervalOn") == 0 {
 			j.Interval = rapid.SampledFrom([]string{"30s", "1m", "2m"}).Draw(t, l+"-interval")
